@@ -14,7 +14,8 @@ generic definitions the theorems are about (Generated/FreeEnergy.lean, Model/Fre
   fn <Functor> <T> <P> par=value ...              one generated functor on explicit parameters (Cn parameters: par=s|l|g)
   sig <Functor>                                   `TP|T par,par,...`   (signature table of the translator)
   builder <Builder>                               `var s l g`          (builder tables of the translator)
-  sfus <HfusArg> <TmArg>                          `_init_data`'s Sfus
+  sfus <Hfus> <Tm>                                `_init_data`'s Sfus from the stored Hfus, Tm
+  phaseref <Tm> <Tb>                              `_set_phase_ref` without an explicit phase (uses T_ref of `env`)
   mix <n,n,...> <v,v,...>                         IdealTPMixtureModel / IdealTMixtureModel
   mixS <n,n,...> <s,s,...>                        Mixture.S → IdealEntropyModel
   xsum <v,v,...>                                  Mixture.xH / xS / xCn
@@ -35,7 +36,7 @@ structure St where
 
 def nan : Float := 0.0 / 0.0
 
-def St.env (st : St) : Env Float := ⟨Float.log, st.R, fun x => x == 0.0⟩
+def St.env (st : St) : Env Float := ⟨Float.log, st.R, fun x => x == 0.0, fun a b => a ≤ b⟩
 
 def St.heatCap (st : St) (p : Phase) : HeatCap Float :=
   match st.polys.find? (fun e => e.1 == p) with
@@ -149,9 +150,13 @@ def step (st : St) (line : String) : St × String :=
     match builderOfName? name with
     | some b => (st, s!"{b.var} {b.s.name} {b.l.name} {b.g.name}")
     | none => (st, "unknown-builder")
+  | ["phaseref", a, b] =>
+    match parseOpt? a, parseOpt? b with
+    | some a, some b => (st, (defaultPhaseRef st.env st.Tref a b).name)
+    | _, _ => (st, "bad-op")
   | ["sfus", a, b] =>
     match parseOpt? a, parseOpt? b with
-    | some a, some b => (st, showOpt (sfusOfCtor a b))
+    | some a, some b => (st, showOpt (initSfus st.env a b))
     | _, _ => (st, "bad-op")
   | ["mix", ns, vs] =>
     match parseList? ns, parseList? vs with
